@@ -166,6 +166,8 @@ let action_str = function
   | AEsc (i, ign, b) -> Printf.sprintf "ACT esc %s %d %d" (inter_str i) (b2i ign) (int_of_n b)
 
 type ctx = {
+  mutable newargs : (n * n * n * bool) option;
+  mutable ops : api_op list;   (* reversed *)
   mutable parser : parser0 option;
   snaps : (int, screen) Hashtbl.t;
   mutable vte : pstate option;
@@ -185,15 +187,24 @@ let exec (ctx : ctx) (line : string) (b : Buffer.t) =
     let bytes i = if Array.length f > i then unhex f.(i) else [] in
     match f.(0) with
     | "NEW" ->
+      ctx.newargs <- Some (nn 1, nn 2, nn 3, f.(4) = "1");
+      ctx.ops <- [];
       ctx.parser <- Some (ok (parser_new (nn 1) (nn 2) (nn 3) (f.(4) = "1")));
       Hashtbl.reset ctx.snaps
-    | "P" -> ctx.parser <- Some (ok (process (get_p ctx) (bytes 1)))
+    | "FP" ->
+      (match ctx.newargs with
+       | Some (r, c, cap, rz) ->
+         let v = fp_case r c cap rz (List.rev ctx.ops) in
+         Buffer.add_string b ("FP " ^ String.concat " " (List.map (fun x -> string_of_int (int_of_n x)) v) ^ "\n")
+       | None -> failwith "FP without NEW")
+    | "P" -> ctx.ops <- OpProcess (bytes 1) :: ctx.ops; ctx.parser <- Some (ok (process (get_p ctx) (bytes 1)))
     | "W" ->
+      ctx.ops <- OpWrite (bytes 1) :: ctx.ops;
       let q, k = ok (write (get_p ctx) (bytes 1)) in
       ctx.parser <- Some (flush q);
       Buffer.add_string b (Printf.sprintf "W %d\n" (int_of_n k))
-    | "SIZE" -> ctx.parser <- Some (ok (step (get_p ctx) (OpSetSize (nn 1, nn 2))))
-    | "SB" -> ctx.parser <- Some (ok (step (get_p ctx) (OpSetScrollback (nn 1))))
+    | "SIZE" -> ctx.ops <- OpSetSize (nn 1, nn 2) :: ctx.ops; ctx.parser <- Some (ok (step (get_p ctx) (OpSetSize (nn 1, nn 2))))
+    | "SB" -> ctx.ops <- OpSetScrollback (nn 1) :: ctx.ops; ctx.parser <- Some (ok (step (get_p ctx) (OpSetScrollback (nn 1))))
     | "SNAP" -> Hashtbl.replace ctx.snaps (num 1) (get_p ctx).scr
     | "DUMP" -> screen_dump b (get_p ctx).scr
     | "OBS" -> obs b (get_p ctx).scr
@@ -283,7 +294,7 @@ let panic_str = function
 let () =
   let path = Sys.argv.(1) in
   let ic = open_in path in
-  let ctx = ref { parser = None; snaps = Hashtbl.create 8; vte = None } in
+  let ctx = ref { newargs = None; ops = []; parser = None; snaps = Hashtbl.create 8; vte = None } in
   let dead = ref false in
   let out = Buffer.create 65536 in
   (try
@@ -293,7 +304,7 @@ let () =
          Buffer.add_string out line;
          Buffer.add_char out '\n';
          dead := false;
-         ctx := { parser = None; snaps = Hashtbl.create 8; vte = None }
+         ctx := { newargs = None; ops = []; parser = None; snaps = Hashtbl.create 8; vte = None }
        end
        else if !dead || (String.length line > 0 && line.[0] = '#') then ()
        else begin
